@@ -140,8 +140,12 @@ def _observe_likelihood(case):
                    sim=np.asarray(the.simulate({n: point[n] for n in case['dict_order'][tag]})['log_like'], dtype=float).tolist(),
                    beta_values=dict(the.get_beta_values()))
         e2 = build.Builder([], overloads=case['overloads']).build(root)
-        one['partial'] = np.asarray(e2.get_value_c(database=build.build_database(case['table']), betas=partial or None,
-                                                   prepare_ids=True), dtype=float).tolist()
+        db2 = build.build_database(case['table'])
+        one['partial'] = np.asarray(e2.get_value_c(database=db2, betas=partial or None, prepare_ids=True), dtype=float).tolist()
+        # the same object evaluated again without dictionary: the overrides must not have leaked
+        one['after_partial'] = np.asarray(e2.get_value_c(database=db2, betas=None, prepare_ids=True), dtype=float).tolist()
+        one['after_partial_empty'] = np.asarray(e2.get_value_c(database=db2, betas={}, prepare_ids=True), dtype=float).tolist()
+        one['beta_values_after'] = dict(e2.get_beta_values())
         res[tag] = one
     return res
 
@@ -163,6 +167,7 @@ def judge_likelihood(case) -> Outcome:
         refs = reference_values(case, root, betas=pointA)
         with_partial = dict({n: b[2] for n, b in betas.items()}, **case['partial'])
         refs_partial = reference_values(case, root, betas=with_partial)
+        refs_initial = reference_values(case, root, betas={n: b[2] for n, b in betas.items()})
     except (refsem.IllPosed, OverflowError) as e:
         out.skipped = 'ill-posed: ' + str(e)[:40]
         return out
@@ -223,6 +228,19 @@ def judge_likelihood(case) -> Outcome:
             out.fail('partial_dictionary', f'row {i}: get_value_c(betas={case["partial"]}) gives {a!r} / twin {b!r}; with the named '
                                            f'parameters overridden and all others at their initial value the value is {ev.v!r}' + where)
             break
+    for tagX, obs in (('A', A), ('B', B)):
+        for which in ('after_partial', 'after_partial_empty'):
+            for i, (a, ev) in enumerate(zip(obs[which], refs_initial)):
+                if not abs(a - ev.v) <= 1e-9 * (1 + abs(ev.v)):
+                    out.fail('partial_dictionary:leaks', f'row {i}: after get_value_c(betas={case["partial"]}) the same formula evaluated '
+                                                         f'without values gives {a!r}; at the initial values it is {ev.v!r}' + where)
+                    return out
+        for n in free:
+            nm = n if tagX == 'A' else mapping[n]
+            if obs['beta_values_after'].get(nm) != betas[n][2]:
+                out.fail('partial_dictionary:initial_values_changed', f'initial value of {nm!r} is {obs["beta_values_after"].get(nm)!r} after an '
+                                                                      f'evaluation with a dictionary; it was {betas[n][2]!r}' + where)
+                return out
     return out
 
 
